@@ -450,8 +450,8 @@ def rule_shapes(F, ev, R, config, rule="R-SHAPES", parts=("set_params", "jacobia
             run(b.key, "best_fit", [("value", alts[0][1])], ax)
     # C07: R is never contracted — every product met had R only as the column space of its right factor
     per = {"set_params": (3, 6), "jacobian": (1, 2), "statistics": (2, 2), "best_fit": (0, 0)}
-    nmin = sum(per[p_][0 if config == "default" else 1] for p_ in parts if p_ in per)
-    R.floor(rule, config, min(nmin, 6 if config == "default" else 9), "set_params ×3, jacobian column, statistics ×2 (per selected part and flavour)")
+    nmin = sum(per[p_][0 if not config.endswith("parallel") else 1] for p_ in parts if p_ in per)
+    R.floor(rule, config, min(nmin, 6 if not config.endswith("parallel") else 9), "set_params ×3, jacobian column, statistics ×2 (per selected part and flavour)")
 
 
 def strip_m(t):
